@@ -9,11 +9,11 @@ if [ "${SEED_TRY_WORKTREE:-0}" = 1 ]; then
   wt=/tmp/wts/$prop.$$
   mkdir -p /tmp/wts; git -C /repo worktree add --detach "$wt" HEAD >/dev/null 2>&1 || exit 2
   git -C "$wt" apply "$patch" || { echo "patch does not apply"; git -C /repo worktree remove --force "$wt"; exit 2; }
-  cd /verif && VERIF_REPO=$wt timeout 1500 ./check "$prop" --tier "$tier" > $out 2>&1; rc=$?
+  cd /verif && VERIF_REPO=$wt timeout 3000 ./check "$prop" --tier "$tier" > $out 2>&1; rc=$?
   git -C /repo worktree remove --force "$wt"
 else
   git -C /repo apply "$patch" || { echo "patch does not apply"; exit 2; }
-  cd /verif && timeout 1500 ./check "$prop" --tier "$tier" > $out 2>&1; rc=$?
+  cd /verif && timeout 3000 ./check "$prop" --tier "$tier" > $out 2>&1; rc=$?
   git -C /repo checkout -- .
   git -C /repo status --short | head -3
 fi
